@@ -378,7 +378,7 @@ def run(ctx):
         "envelope 1 at centre, 1/2 at +- half FWHM span": "proved (exact, and only there) + interval correspondence",
         "jsa_raw = envelope x phasematching": "proved + bitwise on Rust",
         "exact zero off support (box, threshold)": "proved, box proved equal to the property's (strictness included) + exact-zero comparison incl. 1-ulp boundary points",
-        "finite inside the transmission window": "proved_partial (normalisation defined and positive for positive indices); integrals' finiteness validated_only",
+        "finite inside the transmission window": "normalisations / envelope: proved for every built-in crystal, in-window wavelengths, T in [-50,200] C, every orientation and unit beam direction with the index oracles instantiated by the generated index_along over the generated crystal tables (C07_defined_builtin, no index hypothesis); finiteness of the two fibre-coupling integrals themselves validated_only",
     }
     return finish(ctx, assumptions=[
         "oracle fields of `setup` (refractive indices, Snell angles, fibre-coupling integrals, counts correction, optimum and swapped setups) do not depend on "
